@@ -124,14 +124,18 @@ def _match_functions(ref, cur):
     out = {}
     for m in missing:
         cand = sorted(((s, e) for (mm, e), s in scores.items() if mm == m), reverse=True)
-        if not cand or cand[0][0] < 0.8:
+        if not cand:
             continue
-        if len(cand) > 1 and cand[0][0] - cand[1][0] < 0.08:
+        best = cand[0][0]
+        margin = best - (cand[1][0] if len(cand) > 1 else 0.0)
+        # near-identical with a clear lead, or clearly the only candidate that resembles it at all
+        if not ((best >= 0.8 and margin >= 0.08) or (best >= 0.6 and margin >= 0.25)):
             continue
         e = cand[0][1]
-        # mutual: m is also e's best reference
+        # mutual: m is also e's best reference, with the same kind of lead
         back = sorted(((s, mm) for (mm, ee), s in scores.items() if ee == e), reverse=True)
-        if back[0][1] != m or (len(back) > 1 and back[0][0] - back[1][0] < 0.08):
+        bmargin = back[0][0] - (back[1][0] if len(back) > 1 else 0.0)
+        if back[0][1] != m or bmargin < (0.08 if best >= 0.8 else 0.25):
             continue
         out[e] = m
     return out
@@ -159,14 +163,17 @@ def _match_fields(ref_fields, cur_fields):
     return out
 
 
-def _rename_fields_walk(node, owner_fields):
-    """rename field projections: dicts {"k": "field", "name": ...} — by name (the names being renamed are checked to be unambiguous)"""
+def _rename_fields_walk(node, owner_fields, sig):
+    """rename field projections {"k": "field", "i": index, "name": .., "ty": ..}: a projection belongs to the struct being renamed when its
+    name, index and field type all agree with that struct's field (sig: name -> (index, type string))"""
     stack = [node]
     while stack:
         x = stack.pop()
         if isinstance(x, dict):
             if x.get("k") == "field" and x.get("name") in owner_fields:
-                x["name"] = owner_fields[x["name"]]
+                want = sig.get(x["name"])
+                if want is not None and x.get("i") == want[0] and _ty_s(x.get("ty")) == want[1]:
+                    x["name"] = owner_fields[x["name"]]
             stack.extend(x.values())
         elif isinstance(x, list):
             stack.extend(x)
@@ -212,7 +219,21 @@ def canonicalise(crate_dicts):
         if cf is None:
             continue
         m = _match_fields(ref_fields, cf)
-        m = {c: r for c, r in m.items() if all_field_names[c] == 1 and all_field_names[r] == 0}
+        # the reference name must not be in use by another field of this struct; projections are told apart by index and type
+        cur_names = {n for n, _ in cf}
+        m = {c: r for c, r in m.items() if r not in cur_names}
+        if not m:
+            continue
+        sig = {n: (i, t) for i, (n, t) in enumerate(cf)}
+        # another struct with a field of the same name, index and type would be indistinguishable in a projection
+        clash = set()
+        for other, ofields in cur["structs"].items():
+            if other == sname:
+                continue
+            for i, (n, t) in enumerate(ofields):
+                if n in m and sig[n] == (i, t):
+                    clash.add(n)
+        m = {c: r for c, r in m.items() if c not in clash}
         if not m:
             continue
         for d in crate_dicts:
@@ -221,7 +242,7 @@ def canonicalise(crate_dicts):
                     for f in a["variants"][0]["fields"]:
                         if f["name"] in m:
                             f["name"] = m[f["name"]]
-            _rename_fields_walk(d["bodies"], m)
+            _rename_fields_walk(d["bodies"], m, sig)
         for c, r in sorted(m.items()):
             notes.append("field %s.%s is named %s in this tree (matched by position and type)" % (sname, r, c))
     return notes
